@@ -771,6 +771,10 @@ class Exec:
                         pass  # already reported by the soundness check above
                     elif len(w.path) >= len(c.path):
                         rec.count("agree:expected-name-sent(other-instance,path-not-shorter)")
+                    elif c.value in self.lost or c.value not in self.jar_ids():
+                        # the reference's first choice is not in the jar (a miss of a listed kind, or of a new
+                        # kind); it is not observable here because the name is sent: counted, named by its cause
+                        rec.count("info:one-per-name-hides-" + self.lost.get(c.value, "miss:not-in-jar-store"))
                     elif len(w.domain) > len(c.domain):
                         rec.count("info:one-per-name-winner-has-longer-domain-and-shorter-path")
                     else:
@@ -945,6 +949,7 @@ def run_case(case, rec, tmpdir, reported: dict, sample_every=0):
             except Exception:
                 s2 = summ
             summ = f"{s2} || ops={_brief(w)}"
+        rec.count("violating-histories:" + case["stratum"])
         rec.violation(mech, f"[{case['stratum']}] {summ}", w)
     if sample_every and rec.evaluations % sample_every == 0:
         rec.sample({"stratum": case["stratum"], "opts": case["opts"], "ops": case["ops"][:8], "violations": sorted(seen)})
